@@ -18,15 +18,15 @@ Section Generic.
   Variable pf : platform E P.
 
   (** After a run every pending comment is IsEqual to a comment in the store, or was refused by CanCreate, or
-      Create skipped it without storing anything (the platform's explicit exception); with budget m at most m
-      Create calls are made. *)
+      cannot be placed by the platform at all (Create answered errCommentSkipped and stored nothing); with budget m
+      at most m comments are placed (skipped Create calls are not counted against the budget, fix 15e1a20). *)
   Theorem C17_covered_or_deferred : forall store pend m,
     L1 pf pend -> (forall k, can_create pf k = Nat.ltb k m) ->
     (forall p, In p pend ->
        covered_by pf (fst (step pf store pend)) p = true \/
        In p (l_deferred (snd (step pf store pend))) \/
        (In (p, None) (l_created (snd (step pf store pend))) /\ create pf p = None)) /\
-    (List.length (l_created (snd (step pf store pend))) <= m)%nat.
+    (List.length (stored (l_created (snd (step pf store pend)))) <= m)%nat.
   Proof.
     intros store pend m HL Hb. split; [now apply covered_or_deferred|now apply created_le_budget].
   Qed.
@@ -51,25 +51,43 @@ Section Generic.
     split; [exact A|]. split; [exact B|]. intros d Hd. now apply deleted_spec.
   Qed.
 
-  (** Once nothing is deferred (and nothing skipped), repeating the run with unchanged results creates nothing,
-      deletes nothing and leaves the store unchanged. *)
+  (** Once no comment that could be placed is deferred, repeating the run with unchanged results stores nothing,
+      deletes nothing and leaves the store unchanged - with NO side condition on skipped comments: what the
+      platform cannot place is offered to Create again, skipped again, and never enters the store. *)
   Theorem C17_idempotent : forall store pend,
     L1 pf pend ->
-    l_deferred (snd (step pf store pend)) = [] ->
-    (forall p, ~ In (p, None) (l_created (snd (step pf store pend)))) ->
-    step pf (fst (step pf store pend)) pend =
-    (fst (step pf store pend), {| l_created := []; l_deferred := []; l_deleted := [] |}).
+    (forall p, In p (l_deferred (snd (step pf store pend))) -> create pf p = None) ->
+    let store' := fst (step pf store pend) in
+    fst (step pf store' pend) = store' /\
+    stored (l_created (snd (step pf store' pend))) = [] /\
+    l_deleted (snd (step pf store' pend)) = [] /\
+    (forall p, In p (l_deferred (snd (step pf store' pend))) -> create pf p = None).
   Proof. exact (idempotent pf). Qed.
 
-  (** With budget m and unchanged results, run number k+1 defers nothing as soon as (k+1)*m >= the number of
-      comments uncovered at the start (i.e. after ceil(n/m) runs); each run covers min(m, remaining) more. *)
+  (** With budget m and unchanged results: n = number of pending comments that are uncovered at the start AND can
+      be placed by the platform ([todo]).  Run number k+1 defers no placeable comment as soon as (k+1)*m >= n
+      (i.e. after ceil(n/m) runs), after it nothing is left to do, and after k runs at most n - k*m are left.
+      No exception for paths outside the pull request: such comments are skipped for free (fix 15e1a20). *)
   Theorem C17_converges : forall m store pend k,
-    L1 pf pend -> (forall j, can_create pf j = Nat.ltb j m) -> (forall p, In p pend -> create pf p <> None) ->
-    (List.length (uncovered pf store pend) <= S k * m)%nat ->
-    l_deferred (snd (step pf (run_n pf k store pend) pend)) = [] /\
-    (List.length (uncovered pf (run_n pf k store pend) pend) <= List.length (uncovered pf store pend) - k * m)%nat.
+    L1 pf pend -> (forall j, can_create pf j = Nat.ltb j m) ->
+    (List.length (todo pf store pend) <= S k * m)%nat ->
+    (forall p, In p (l_deferred (snd (step pf (run_n pf k store pend) pend))) -> create pf p = None) /\
+    todo pf (run_n pf (S k) store pend) pend = [] /\
+    (List.length (todo pf (run_n pf k store pend) pend) <= List.length (todo pf store pend) - k * m)%nat.
   Proof.
-    intros m store pend k HL Hb Hs Hn. split; [now apply (converges pf m)|now apply uncovered_after_runs].
+    intros m store pend k HL Hb Hn. split; [now apply (converges pf m)|].
+    split; [now apply (converged_todo_nil pf m)|now apply todo_after_runs].
+  Qed.
+
+  (** [todo = []] means what it should: every pending comment is covered or cannot be placed. *)
+  Theorem C17_todo_nil_spec : forall store pend,
+    todo pf store pend = [] <-> (forall p, In p pend -> covered_by pf store p = true \/ create pf p = None).
+  Proof.
+    intros store pend. unfold todo, placeable. split.
+    - intros H p Hp. pose proof (filter_nil_forall _ _ H p Hp) as K. cbn beta in K.
+      destruct (covered_by pf store p); [now left|]. destruct (create pf p); [discriminate|now right].
+    - intros H. apply filter_none. intros p Hp. destruct (H p Hp) as [K|K]; rewrite K; [reflexivity|].
+      now rewrite andb_false_r.
   Qed.
 End Generic.
 Print Assumptions C17_covered_or_deferred.
@@ -77,6 +95,7 @@ Print Assumptions C17_no_duplicate_creation.
 Print Assumptions C17_stale_removed.
 Print Assumptions C17_idempotent.
 Print Assumptions C17_converges.
+Print Assumptions C17_todo_nil_spec.
 
 (** Problems of one check on the same lines share a comment: dedupReports yields non-empty groups uniform in
     (severity, reporter, target path, lines, anchor), exactly one group per such key, made only of reports that
@@ -117,23 +136,53 @@ Theorem C17_platform_L2 :
 Proof. split; [exact gitlab_L2|exact github_L2]. Qed.
 Print Assumptions C17_platform_L2.
 
-(** Hence, for the GitLab model: a run that defers and skips nothing is a fixpoint of repeated runs. *)
+(** Hence, for the platform models, with NO exception for paths outside the pull/merge request: a run that defers
+    nothing placeable is a fixpoint of repeated runs, and with budget m run ceil(n/m) leaves nothing to do. *)
 Theorem C17_gitlab_idempotent : forall diffs m store pend,
   (forall p, In p pend -> (0 < pc_line p)%Z /\ pc_path p <> ""%string) ->
-  l_deferred (snd (step (gitlab diffs m) store pend)) = [] ->
-  (forall p, ~ In (p, None) (l_created (snd (step (gitlab diffs m) store pend)))) ->
-  step (gitlab diffs m) (fst (step (gitlab diffs m) store pend)) pend =
-  (fst (step (gitlab diffs m) store pend), {| l_created := []; l_deferred := []; l_deleted := [] |}).
-Proof. intros diffs m store pend Hv. apply idempotent. now apply gitlab_L1_list. Qed.
+  let pf := gitlab diffs m in
+  (forall p, In p (l_deferred (snd (step pf store pend))) -> create pf p = None) ->
+  let store' := fst (step pf store pend) in
+  fst (step pf store' pend) = store' /\ stored (l_created (snd (step pf store' pend))) = [] /\
+  l_deleted (snd (step pf store' pend)) = [].
+Proof.
+  intros diffs m store pend Hv pf Hd store'.
+  destruct (idempotent pf store pend (gitlab_L1_list diffs m pend Hv) Hd) as (A & B & C & _). auto.
+Qed.
 Print Assumptions C17_gitlab_idempotent.
 
 Theorem C17_github_idempotent : forall files m store pend,
-  l_deferred (snd (step (github files m) store pend)) = [] ->
-  (forall p, ~ In (p, None) (l_created (snd (step (github files m) store pend)))) ->
-  step (github files m) (fst (step (github files m) store pend)) pend =
-  (fst (step (github files m) store pend), {| l_created := []; l_deferred := []; l_deleted := [] |}).
-Proof. intros files m store pend. apply idempotent. apply github_L1_list. Qed.
+  let pf := github files m in
+  (forall p, In p (l_deferred (snd (step pf store pend))) -> create pf p = None) ->
+  let store' := fst (step pf store pend) in
+  fst (step pf store' pend) = store' /\ stored (l_created (snd (step pf store' pend))) = [] /\
+  l_deleted (snd (step pf store' pend)) = [].
+Proof.
+  intros files m store pend pf Hd store'.
+  destruct (idempotent pf store pend (github_L1_list files m pend) Hd) as (A & B & C & _). auto.
+Qed.
 Print Assumptions C17_github_idempotent.
+
+Theorem C17_platforms_converge :
+  (forall files m store pend k,
+     (List.length (todo (github files m) store pend) <= S k * m)%nat ->
+     forall p, In p pend ->
+       covered_by (github files m) (run_n (github files m) (S k) store pend) p = true \/ gh_create files p = None) /\
+  (forall diffs m store pend k,
+     (forall p, In p pend -> (0 < pc_line p)%Z /\ pc_path p <> ""%string) ->
+     (List.length (todo (gitlab diffs m) store pend) <= S k * m)%nat ->
+     forall p, In p pend ->
+       covered_by (gitlab diffs m) (run_n (gitlab diffs m) (S k) store pend) p = true \/ gl_create diffs p = None).
+Proof.
+  split.
+  - intros files m store pend k Hn.
+    apply (proj1 (C17_todo_nil_spec (github files m) _ pend)).
+    apply (converged_todo_nil (github files m) m); auto. apply github_L1_list.
+  - intros diffs m store pend k Hv Hn.
+    apply (proj1 (C17_todo_nil_spec (gitlab diffs m) _ pend)).
+    apply (converged_todo_nil (gitlab diffs m) m); auto. now apply gitlab_L1_list.
+Qed.
+Print Assumptions C17_platforms_converge.
 
 (* ---- refutations ---------------------------------------------------------------------------------- *)
 
@@ -168,10 +217,10 @@ Proof.
 Qed.
 Print Assumptions C17_gitlab_prefix_L1_refuted.
 
-(** The GitHub exception stated in full: a pending comment on a path outside the pull request is skipped by
-    Create but still counted against the budget; when such comments come first they starve the others — with
-    maxComments = 1 the second comment below is never posted, however often the run is repeated (convergence
-    needs the no-skip premise of C17_converges). *)
+(** Before fix 15e1a20 a comment that Create skipped (path outside the pull request) was counted against the
+    budget; when such comments came first they starved the others.  [step_prefix] is that accounting: with
+    maxComments = 1 the second comment below is never posted however often the run is repeated.  With the current
+    accounting ([step]) the very same input converges in one run and is a fixpoint afterwards. *)
 Definition gh_witness_files : gh_files := [("rules/a.yml", "@@ -1,1 +1,2 @@
  ctx
 +new
@@ -180,17 +229,22 @@ Definition gh_witness_pending : list pcomment :=
   [{| pc_path := "rules/not-in-pr.yml"; pc_line := 2; pc_anchor_before := false; pc_text := "first" |};
    {| pc_path := "rules/a.yml"; pc_line := 2; pc_anchor_before := false; pc_text := "second" |}]%string.
 
-Theorem C17_github_skip_starves_refuted :
-  forall k, run_n (github gh_witness_files 1) k [] gh_witness_pending = [] /\
-            List.length (l_deferred (snd (step (github gh_witness_files 1) (run_n (github gh_witness_files 1) k [] gh_witness_pending) gh_witness_pending))) = 1%nat.
+Theorem C17_counting_skips_starves_refuted :
+  let pf := github gh_witness_files 1 in
+  (forall k, run_n_prefix pf k [] gh_witness_pending = [] /\
+             List.length (l_deferred (snd (step_prefix pf (run_n_prefix pf k [] gh_witness_pending) gh_witness_pending))) = 1%nat) /\
+  (let '(s1, l1) := step pf [] gh_witness_pending in
+   List.length s1 = 1%nat /\ l_deferred l1 = [] /\ todo pf s1 gh_witness_pending = [] /\
+   fst (step pf s1 gh_witness_pending) = s1).
 Proof.
-  assert (H : forall k, run_n (github gh_witness_files 1) k [] gh_witness_pending = []).
-  { induction k as [|k IH]; [reflexivity|]. cbn [run_n].
-    replace (fst (step (github gh_witness_files 1) [] gh_witness_pending)) with (@nil ecomment) by (vm_compute; reflexivity).
+  intros pf. split; [|vm_compute; repeat split].
+  assert (H : forall k, run_n_prefix pf k [] gh_witness_pending = []).
+  { induction k as [|k IH]; [reflexivity|]. cbn [run_n_prefix].
+    replace (fst (step_prefix pf [] gh_witness_pending)) with (@nil ecomment) by (vm_compute; reflexivity).
     exact IH. }
   intros k. split; [apply H|]. rewrite H. vm_compute. reflexivity.
 Qed.
-Print Assumptions C17_github_skip_starves_refuted.
+Print Assumptions C17_counting_skips_starves_refuted.
 
 (** Non-vacuity: a concrete GitLab run with budget 1 over two problems, a stale and a foreign-looking comment:
     run 1 creates one and deletes the stale one, run 2 creates the other, run 3 does nothing. *)
@@ -204,6 +258,7 @@ Example C17_nonvacuous :
   let '(s3, l3) := step pf s2 pend in
   (List.length (l_created l1), List.length (l_deferred l1), List.length (l_deleted l1)) = (1, 1, 1)%nat /\
   (List.length (l_created l2), List.length (l_deferred l2), List.length (l_deleted l2)) = (1, 0, 0)%nat /\
-  l3 = {| l_created := []; l_deferred := []; l_deleted := [] |} /\ s3 = s2 /\ List.length s2 = 2%nat.
+  l3 = {| l_created := []; l_deferred := []; l_deleted := [] |} /\ s3 = s2 /\ List.length s2 = 2%nat /\
+  List.length (todo pf [stale_c] pend) = 2%nat /\ todo pf s2 pend = [].
 Proof. vm_compute. repeat split. Qed.
 Print Assumptions C17_nonvacuous.
